@@ -105,8 +105,8 @@ LEVEL_NOTE = ('Trusted: stdlib symtable and CPython 3.12 co_positions; the paral
 #   FC08d_class_binding_captures  a class-level binding hides reads of the same name made by methods/lambdas/comprehension bodies
 #   FC08e_lambda_in_first_iterable a lambda in the first iterable of a comprehension that reads a name also used as iteration variable
 #                               loses that read (the iterable is visited twice, the second visit overwrites the lambda's scopes)
-EXCL = ('F09_nested_param_leak', 'FC08a_param_annotation_reads', 'FC08b_walrus_in_comprehension', 'FC08c_nonlocal_passthrough',
-        'FC08d_class_binding_captures', 'FC08e_lambda_in_first_iterable')
+# F09, FC08a, FC08b, FC08c and FC08e were repaired in /repo (fix: commits): their shapes are generated again
+EXCL = ('FC08d_class_binding_captures',)
 if os.environ.get('VF_C08_EXCL') is not None:   # dev only: comma list overriding the exclusions
   EXCL = tuple(x for x in os.environ['VF_C08_EXCL'].split(',') if x)
 
@@ -116,7 +116,7 @@ FILENAME = '<c08>'
 
 def budget(tier):
   if tier == 'thorough':
-    return {'programs': 60000, 'stmts': 34, 'max_scope_depth': 5, 'shrink_s': 60, 'wall_cap': 1150}
+    return {'programs': 50000, 'stmts': 34, 'max_scope_depth': 5, 'shrink_s': 60, 'wall_cap': 1150}
   return {'programs': 5000, 'stmts': 22, 'max_scope_depth': 4, 'shrink_s': 15, 'wall_cap': 300}
 
 
@@ -1443,25 +1443,39 @@ def check_static(src, top, fails, stats):
   # function, and a nested scope's free reference to the same name is then resolved to it (3.11 resolved it
   # further out, and so does malt). Such names are don't-care in the free sets of that function and above.
   artefact = collections.defaultdict(set)
+
+  def free_below(t, names, out):
+    for c in t.get_children():
+      rest = set(names)
+      for s in c.get_symbols():
+        n = s.get_name()
+        if n in rest:
+          if s.is_free():
+            out.add(n)
+          elif c.get_type() == 'function' and s.is_local():
+            rest.discard(n)    # resolved here: deeper references are not ours
+      if rest:
+        free_below(c, rest, out)
+
   for node, tab in pairs:
-    if tab is None or not isinstance(node, (ast.FunctionDef, ast.Lambda)):
+    if tab is None:
       continue
-    # (same family: a def/lambda written inside a comprehension refers to the iteration variables; whether the
-    # enclosing functions then "need" those names depends on the inlining, so they are don't-care there too)
+    # (same family: a def/lambda/generator expression written inside a comprehension refers to the iteration
+    # variables; whether the enclosing functions then "need" those names depends on the inlining (at class level
+    # they do), so they are don't-care there too)
     inside = enclosing_comp_targets(node)
     p = getattr(node, '_parent', None)
     while inside and p is not None:
       if isinstance(p, (ast.FunctionDef, ast.Lambda)):
         artefact[p] |= inside
       p = getattr(p, '_parent', None)
+    if not isinstance(node, (ast.FunctionDef, ast.Lambda)):
+      continue
     only_comp = exempt_names(node) - binding_occurrences(node)
     if not only_comp:
       continue
     hit = set()
-    for c in tab.get_children():
-      for s in c.get_symbols():
-        if s.is_free() and s.get_name() in only_comp:
-          hit.add(s.get_name())
+    free_below(tab, only_comp, hit)
     for x in own_names(node):
       if isinstance(x.ctx, ast.Load) and x.id in only_comp and not comp_exempt(x, x.id):
         hit.add(x.id)
